@@ -62,6 +62,12 @@ package types
 //@ loop 1: invariant len(l.Prices) >= len(old(l.Prices)) && (forall r :: 0 <= r && r < len(old(l.Prices)) ==> l.Prices[r].SignalID == old(l.Prices)[r].SignalID)
 //@ loop 1: invariant forall r :: 0 <= r && r < len(old(l.Prices)) && !(exists j :: 0 <= j && j < #i && newPrices[j].SignalID == old(l.Prices)[r].SignalID) ==> l.Prices[r] == old(l.Prices)[r]
 
+// the deviation specs of a tunnel by signal id (a lookup table: what is in it, not an order)
+//@ func (t Tunnel) GetSignalDeviationMap
+//@ ensures forall j :: 0 <= j && j < len(t.SignalDeviations) ==> has(result, t.SignalDeviations[j].SignalID)
+//@ ensures forall k Str :: has(result, k) ==> (exists j :: 0 <= j && j < len(t.SignalDeviations) && t.SignalDeviations[j].SignalID == k && result[k] == t.SignalDeviations[j])
+//@ loop 0: invariant forall j :: 0 <= j && j < #i ==> has(signalDeviationMap, t.SignalDeviations[j].SignalID)
+//@ loop 0: invariant forall k Str :: has(signalDeviationMap, k) ==> (exists j :: 0 <= j && j < #i && t.SignalDeviations[j].SignalID == k && signalDeviationMap[k] == t.SignalDeviations[j])
 // the signal ids of a tunnel, in the order of its deviation specs
 //@ func (t Tunnel) GetSignalIDs
 //@ ensures len(result) == len(t.SignalDeviations) && (forall j :: 0 <= j && j < len(result) ==> result[j] == t.SignalDeviations[j].SignalID)
